@@ -9,7 +9,7 @@ from vf.engine import Ctx, Failure
 from vf.harness.common import bounds_of, method_classes, self_of
 
 SRC = '''
-from dataclasses import dataclass, field, InitVar
+from dataclasses import dataclass, field, InitVar, KW_ONLY
 from typing import Optional
 from apischema.fields import with_fields_set, fields_set, set_fields, unset_fields, is_set
 from apischema.metadata import default_as_set, init_var
@@ -52,6 +52,18 @@ class WithInit:
 
     def __post_init__(self, iv):
         self.total = self.a + iv
+
+@dataclass
+class KBase:
+    a: int
+    _: KW_ONLY
+    verbose: int = 0
+
+@with_fields_set
+@dataclass
+class KChild(KBase):
+    name: int = 0
+    mid: int = field(default=0, kw_only=True)
 '''
 
 # name -> (init-able fields in order with default flag, initvars, always-set fields, serialized fields)
@@ -61,6 +73,9 @@ CLASSES = {
     # not itself decorated: the statement does not pin its set; checked for superset / no error
     "UndecoratedChild": dict(params=[("a", False), ("b", True), ("c", True)], initvars=set(), always=set(), ser=["a", "b", "c"], weak=True),
     "WithInit": dict(params=[("a", False), ("iv", True), ("b", True)], initvars={"iv"}, always={"total"}, ser=["a", "b", "total"], post={"total"}),
+    # keyword-only fields: the generated __init__ puts them last, whatever the field order
+    "KChild": dict(params=[("a", False), ("name", True), ("verbose", True), ("mid", True)], kwonly={"verbose", "mid"},
+                   initvars=set(), always=set(), ser=["a", "verbose", "name", "mid"]),
 }
 OPS = ["set", "unset", "assign", "replace", "set_overwrite"]
 
@@ -70,7 +85,7 @@ def jobs(prop, tier, seed):
     for name in CLASSES:
         for start in ("deserialize", "kwargs", "positional"):
             n = 2 if tier == "quick" else 3
-            out.append(dict(harness="C15", pid=name, variant=start, opts={"ops": n}, bounds={}, budget_s=60 if tier == "quick" else 300))
+            out.append(dict(harness="C15", pid=name, variant=start, opts={"ops": n}, bounds={}, budget_s=(120 if name == "KChild" else 60) if tier == "quick" else 300))
     return out
 
 
@@ -139,10 +154,12 @@ class Inst:
             # positional arguments: a prefix of the parameters
             names = [n for n, _ in M["params"]]
             k = 0
-            while k < len(names) and names[k] in given:
+            kwonly = M.get("kwonly", set())
+            while k < len(names) and names[k] in given and names[k] not in kwonly:
                 k += 1
-            given = {n: given[n] for n in names[:k]}
-            o = self.cls(*[given[n] for n in names[:k]])
+            kw = {n: given[n] for n in kwonly if n in given}
+            given = {**{n: given[n] for n in names[:k]}, **kw}
+            o = self.cls(*[given[n] for n in names[:k]], **kw)
         history.append([start, sorted(given)])
         model = (set(given) - M["initvars"]) | M["always"]
         ctx.notes["tag:checked"] = True
